@@ -195,6 +195,11 @@ def line(op):
                           up if up is not None else "-", down if down is not None else "-"])
     if k == "EVAL":
         _, cls, word, feats = op
+        cut = cls.cutter
+        if cut.is_3overhang():
+            # the other branch of target_sequence / placeholder_sequence; geometry (site, off = fst3, k)
+            return "\t".join(["EVAL3", cls_kind(cls), cls.structure(), cut.site, str(cut.fst3), str(abs(cut.ovhg)),
+                              w(word), enc_feats(feats)])
         return "\t".join(["EVAL"] + cls_fields(cls) + [w(word), enc_feats(feats)])
     if k == "GRAPH":
         _, vup, vdown, mods = op
